@@ -75,6 +75,93 @@ def nid_of(x):
     return int(x[1:])
 
 
+class KillNow(BaseException):
+    """raised by a storage hook: the process dies before executing this primitive"""
+
+
+_HOOKED = [False]
+
+
+def install_storage_hooks():
+    """Wrap the storage primitives (journal record/header write, .meta tmp write + rename, dump tmp write + rename)
+    so that a simulation can stop a step after the w-th primitive.  Wrappers live in this process only."""
+    if _HOOKED[0]:
+        return
+    _HOOKED[0] = True
+    import pysyncobj.journal as J
+    import pysyncobj.serializer as SER
+
+    def prim(kind):
+        sim = SimTransport.sim
+        if sim is None:
+            return
+        sim.prim_count += 1
+        if sim.in_delete_to:
+            sim.prim_in_delete += 1
+        sim.prim_log.append(kind + (':in_delete_to' if sim.in_delete_to else ''))
+        # kill_at = w: die before primitive w+1 of the step; kill_at = 1000+w: before primitive w+1 inside the journal head drop
+        if sim.kill_at is not None and ((sim.kill_at < 1000 and sim.prim_count > sim.kill_at) or
+                                        (sim.kill_at >= 1000 and sim.in_delete_to and sim.prim_in_delete > sim.kill_at - 1000)):
+            sim.kill_info = {'at': sim.kill_at, 'next_primitive': kind, 'in_delete_to': bool(sim.in_delete_to),
+                             'done': list(sim.prim_log[:-1])}
+            raise KillNow()
+
+    orig_write = J.ResizableFile.write
+
+    def write(self, offset, values):
+        prim('journal_write')
+        return orig_write(self, offset, values)
+    J.ResizableFile.write = write
+
+    orig_store = J.MetaStorer.storeMeta
+
+    def storeMeta(self, meta):
+        prim('meta_tmp_write')
+        return orig_store(self, meta)
+    J.MetaStorer.storeMeta = storeMeta
+
+    class _Shutil(object):
+        def __getattr__(self, name):
+            import shutil
+            return getattr(shutil, name)
+
+        def move(self, a, b):
+            prim('meta_rename')
+            import shutil
+            return shutil.move(a, b)
+    J.shutil = _Shutil()
+
+    orig_del_to = J.FileJournal.deleteEntriesTo
+
+    def deleteEntriesTo(self, entryTo):
+        sim = SimTransport.sim
+        sim.in_delete_to += 1
+        try:
+            return orig_del_to(self, entryTo)
+        finally:
+            sim.in_delete_to -= 1
+    J.FileJournal.deleteEntriesTo = deleteEntriesTo
+
+    orig_replace = SER.atomicReplace
+
+    def atomicReplace(a, b):
+        prim('dump_rename')
+        return orig_replace(a, b)
+    SER.atomicReplace = atomicReplace
+
+    class _Gzip(object):
+        def __getattr__(self, name):
+            import gzip
+            return getattr(gzip, name)
+
+        def GzipFile(self, *a, **k):
+            import gzip
+            if k.get('mode') == 'wb' and k.get('fileobj') is not None and getattr(k['fileobj'], 'name', None):
+                prim('dump_tmp_write')
+            return gzip.GzipFile(*a, **k)
+    SER.gzip = _Gzip()
+
+
 class _Rand(object):
     """stand-in for the `random` module inside pysyncobj.syncobj"""
 
@@ -186,6 +273,13 @@ class Sim(object):
         self.cmd_bytes = {}     # command bytes -> cid (for REGULAR)
         self.App = make_app_class()
         self.dead = set()
+        self.prim_count = 0
+        self.prim_in_delete = 0
+        self.prim_log = []
+        self.kill_at = None
+        self.kill_info = None
+        self.in_delete_to = 0
+        self.abandoned = None
         self._install()
 
     # ---- environment patches ------------------------------------------------------------
@@ -295,6 +389,11 @@ class Sim(object):
         if rnd is not None:
             self.rnd = rnd / float(self.cfg['tspan'])
         self.budget = 30 if budget is None else budget
+        self.prim_count = 0
+        self.prim_in_delete = 0
+        self.prim_log = []
+        self.kill_info = None
+        self.abandoned = None
         for o in self.nodes.values():
             o._SyncObj__transport.tlog = []
 
@@ -312,6 +411,32 @@ class Sim(object):
                 self.begin(now, rnd, budget)
                 self.step_nid = n
                 self.nodes[n]._onTick(0.0)
+            elif k in ('tickkill', 'deliverkill'):
+                # like tick / deliver, but the process dies before its (w+1)-th storage primitive of this step
+                install_storage_hooks()
+                if k == 'tickkill':
+                    _, n, now, rnd, w = ev
+                    self.begin(now, rnd, None)
+                    self.step_nid = n
+                else:
+                    _, a, b, now, rnd, w = ev
+                    self.begin(now, rnd)
+                    self.step_nid = n = b
+                self.kill_at = w
+                SimTransport.sim = self
+                try:
+                    if k == 'tickkill':
+                        self.nodes[n]._onTick(0.0)
+                    else:
+                        raw = self.chan[(a, b)].popleft()
+                        t = self.tr(b)
+                        t._onMessageReceived(t._node_for(a), _pickle.loads(raw))
+                except KillNow:
+                    self.abandoned = self.nodes[n]
+                    self.kill(n, destroy=False)
+                    self.step_nid = None
+                finally:
+                    self.kill_at = None
             elif k == 'deliver':
                 _, a, b, now, rnd = ev
                 self.begin(now, rnd)
@@ -392,14 +517,17 @@ class Sim(object):
             self.exc_repr = repr(e)
         return self.step_nid
 
-    def kill(self, n):
+    def kill(self, n, destroy=True):
         obj = self.nodes.pop(n, None)
         self.dead.add(n)
-        if obj is not None:
+        if obj is not None and destroy:
             try:
                 obj._SyncObj__raftLog._destroy()
             except Exception:
                 pass
+        elif obj is not None:
+            self.zombies = getattr(self, 'zombies', [])
+            self.zombies.append(obj)      # keeps the mmap alive: an executed store stays visible, nothing is flushed or closed
         for k in list(self.chan):
             if n in k:
                 self.chan[k].clear()
@@ -447,7 +575,7 @@ class Sim(object):
                 return [7, m['request_id'], 0, m['error']]
             return [7, m['request_id'], 1, m['log_idx'], m['log_term']]
         if t == 'next_node_idx':
-            return [8, m['term'], m['next_node_idx'], 1 if m['reset'] else 0, 1 if m['success'] else 0]
+            return [8, m.get('term', 0), m['next_node_idx'], 1 if m['reset'] else 0, 1 if m['success'] else 0]
         return [9]
 
     def node_state(self, n):
@@ -488,7 +616,7 @@ class Sim(object):
         inc = sg('incomingTransmissionFile')
         out += [0 if inc is None else 1 + (len(inc) if isinstance(inc, bytes) else inc.tell())]
         out += L(list(o.history))
-        out += [g('enabledCodeVersion'), 1 if g('needLoadDumpFile') else 0, g('journalReplayIdx')]
+        out += [g('enabledCodeVersion'), 1 if g('needLoadDumpFile') else 0, getattr(o, '_SyncObj__journalReplayIdx', 0)]
         return out
 
     def outs(self):
